@@ -30,6 +30,17 @@ Definition run_pair (c : Z * Z * Z) : string :=
   let '(bits, n1, n2) := c in
   show_pair_obs bits (sn_make bits n1) (sn_make bits n2).
 
+(** one case = (bits, a, ns): ((a + n1) + n2) + ..., the left operand of every step being the
+    previous sum (a refused addition leaves it unchanged); each step prints the pair observation *)
+Fixpoint chain_obs (bits a : Z) (ns : list Z) : list string :=
+  match ns with
+  | [] => []
+  | n :: r => show_pair_obs bits a n
+              :: chain_obs bits (match sn_add bits a n with Some s => s | None => a end) r
+  end.
+Definition run_chain (bits a : Z) (ns : list Z) : string :=
+  String.concat ";" (chain_obs bits (sn_make bits a) (map (sn_make bits) ns)).
+
 Fixpoint zrange (n : nat) : list Z :=
   match n with O => [] | S k => zrange k ++ [Z.of_nat k] end.
 
